@@ -133,6 +133,11 @@ func (t *Tree[E]) playGame(a, b int) (loser, winner int) {
 	if t.nodes[a].value < t.nodes[b].value {
 		return b, a
 	}
+	// On a tie, a sequence that has ended (its value is maxVal) must not beat a live
+	// sequence whose current value happens to equal maxVal, or that value is never emitted.
+	if t.nodes[b].index == -1 && t.nodes[a].index != -1 {
+		return b, a
+	}
 	return a, b
 }
 
